@@ -282,6 +282,58 @@ theorem amplitude_loss_residual {x m : ℝ} (hx : 0 ≤ x) :
       NumReal.add_eq, NumReal.sqrt_eq, NumReal.abs_eq, if_true]
     rw [← sub_mul, abs_mul, abs_of_nonneg hge, mul_comm]
 
+/-- **amplitude loss at the truth, whole batch**: with the l2-amplitude targets the library derives
+(`no_shift`) from the simulated data, the pipeline's loss at the ground truth is not zero but at most
+`num_gpts · 1e-9 · Σ mask² / mean_intensity` — for every non-empty batch of in-box positions, whatever
+its size (the batch-fraction scaling cancels the number of patterns), every ROI size, any slices/modes. -/
+theorem amplitude_loss_at_truth_le {R0 R1 : ℕ} (hr : 0 < R0) (hc : 0 < R1) (H W : ℕ) (t : List (List (Cx ℝ)))
+    (probesC kernels : List (Img ℝ)) (hp : ∀ psi ∈ probesC, Rect R0 R1 psi) (hk : ∀ K ∈ kernels, Rect R0 R1 K)
+    (hne : probesC ≠ []) (batch : List (ℚ × ℚ)) (hb : batch ≠ []) (hpos : ∀ p ∈ batch, InBox H W p)
+    (m : ℕ → ℕ → ℝ) {n : ℕ} (hn : 0 < n) {meanI : ℝ} (hm : 0 < meanI) :
+    lossBatch .l2Amplitude (forward H W R0 R1 t (probesC.map ifftshift2) (kernels.map ifftshift2) batch)
+      ((Spec.simulate H W R0 R1 t probesC kernels batch).map fun I =>
+        target .l2Amplitude I (comFit .noShift (Spec.simulate H W R0 R1 t probesC kernels batch) R0 R1).1
+          (comFit .noShift (Spec.simulate H W R0 R1 t probesC kernels batch) R0 R1).2) (build R0 R1 m) n meanI
+      ≤ (n : ℝ) * ((1 / 10 ^ 9) * ∑ i ∈ Finset.range R0, ∑ j ∈ Finset.range R1, (m i j) ^ 2) / meanI := by
+  rw [forward_eq_spec hr hc H W t probesC kernels hp hk batch hpos]
+  have hdata : ∀ I ∈ Spec.simulate H W R0 R1 t probesC kernels batch, Rect R0 R1 I ∧ NonNeg I := by
+    intro I hI
+    unfold Spec.simulate at hI
+    obtain ⟨p, _, rfl⟩ := List.mem_map.1 hI
+    exact pattern_rect_nonneg hr hc H W t probesC kernels hp hk hne p
+  have htargets : ((Spec.simulate H W R0 R1 t probesC kernels batch).map fun I =>
+        target .l2Amplitude I (comFit .noShift (Spec.simulate H W R0 R1 t probesC kernels batch) R0 R1).1
+          (comFit .noShift (Spec.simulate H W R0 R1 t probesC kernels batch) R0 R1).2)
+      = (Spec.simulate H W R0 R1 t probesC kernels batch).map rawAmplitude := by
+    apply List.map_congr_left
+    intro I hI
+    unfold target
+    simp only [LossType.isAmplitude, if_true]
+    exact centredAmplitude_noShift hr hc (hdata I hI).1
+  rw [htargets]
+  apply lossBatch_l2amp_le _ hdata _ m hn hm
+  unfold Spec.simulate
+  intro h
+  exact hb (List.map_eq_nil_iff.1 h)
+
+/-- **the ground truth is a global minimiser** of both intensity losses (hence a stationary point of the
+differentiable l2-intensity loss): no prediction whatsoever scores below the pipeline at the truth. -/
+theorem truth_minimises_loss {R0 R1 : ℕ} (hr : 0 < R0) (hc : 0 < R1) (H W : ℕ) (t : List (List (Cx ℝ)))
+    (probesC kernels : List (Img ℝ)) (hp : ∀ psi ∈ probesC, Rect R0 R1 psi) (hk : ∀ K ∈ kernels, Rect R0 R1 K)
+    (hne : probesC ≠ []) (batch : List (ℚ × ℚ)) (hpos : ∀ p ∈ batch, InBox H W p)
+    (lt : LossType) (hlt : lt.isAmplitude = false) (mask : RImg ℝ) (n : ℕ) {meanI : ℝ} (hm : 0 ≤ meanI)
+    (other : List (RImg ℝ)) :
+    lossBatch lt (forward H W R0 R1 t (probesC.map ifftshift2) (kernels.map ifftshift2) batch)
+      ((Spec.simulate H W R0 R1 t probesC kernels batch).map fun I =>
+        target lt I (comFit .noShift (Spec.simulate H W R0 R1 t probesC kernels batch) R0 R1).1
+          (comFit .noShift (Spec.simulate H W R0 R1 t probesC kernels batch) R0 R1).2) mask n meanI
+      ≤ lossBatch lt other
+      ((Spec.simulate H W R0 R1 t probesC kernels batch).map fun I =>
+        target lt I (comFit .noShift (Spec.simulate H W R0 R1 t probesC kernels batch) R0 R1).1
+          (comFit .noShift (Spec.simulate H W R0 R1 t probesC kernels batch) R0 R1).2) mask n meanI := by
+  rw [loss_zero hr hc H W t probesC kernels hp hk hne batch hpos lt hlt mask n meanI]
+  exact lossBatch_nonneg lt _ _ mask n hm
+
 /-- **loss ≥ 0** for every loss type, batch, mask and batch fraction (mean intensity `≥ 0`) -/
 theorem loss_nonneg (lt : LossType) (preds targets : List (RImg ℝ)) (mask : RImg ℝ) (n : ℕ) {meanI : ℝ}
     (hm : 0 ≤ meanI) : 0 ≤ lossBatch lt preds targets mask n meanI :=
@@ -359,6 +411,15 @@ theorem obj_shape_multiple_of_8 (g : Geometry) : g.H % 8 = 0 ∧ g.W % 8 = 0 := 
     simp only
     omega
   exact ⟨key _ _ (hev _ _ _), key _ _ (hev _ _ _)⟩
+
+/-- the numeric model of `_set_initial_scan_positions_px` with rotation / transposition
+(`scanPositionsGeneral`, compared with the library for rotated and transposed scans) reduces, at rotation 0
+without transposition and non-negative steps, to the exact raster `scanPositions` used by the theorems above -/
+theorem scan_positions_general_plain (g : Geometry) (hs1 : 0 ≤ g.stepR) (hs2 : 0 ≤ g.stepC) :
+    scanPositionsGeneral g.gr g.gc (g.stepR : ℝ) (g.stepC : ℝ) (g.sampR : ℝ) (g.sampC : ℝ)
+        ((g.padUsedR : ℕ) : ℝ) ((g.padUsedC : ℕ) : ℝ) 0 false
+      = (scanPositions g).map fun p => ((p.1 : ℝ), (p.2 : ℝ)) :=
+  scanPositionsGeneral_plain g hs1 hs2
 
 -- non-vacuity: a geometry with fractional step whose requested padding (2,3) is enlarged
 example : (({ gr := 4, gc := 3, stepR := 7 / 4, stepC := 3 / 2, sampR := 1, sampC := 1 / 2, R0 := 8, R1 := 6, padR := 2, padC := 3 } : Geometry).padUsedR,
